@@ -673,7 +673,7 @@ def iter_any_all_find(e, args, fr, m):
     return {'any': False, 'all': True, 'find': NONE, 'position': NONE}[which]
 
 
-@contract(r'^<.* as Iterator>::count$')
+@contract(r'^<(?!Chars<).* as Iterator>::count$')
 def iter_count(e, args, fr, m):
     it = e.force(args[0])
     if isinstance(it, IterV) and it.kind in ('lazy', 'map', 'enum'):
